@@ -190,16 +190,30 @@ func (x *Exec) ptrScalar(p PtrV) Term {
 		if len(p.Path) == 0 {
 			return b
 		}
-		name := "fieldaddr_" + sanitize(typeKey(p.Root)) + "_" + pathStr(p.Path)
-		x.sym.declareFun(name, []Sort{SInt}, SInt)
-		return mk(SInt, name, b)
+		return x.fieldAddr(b, p.Root, p.Path)
 	}
 	if len(p.Path) == 0 {
 		return p.Base
 	}
-	name := "fieldaddr_" + sanitize(typeKey(p.Root)) + "_" + pathStr(p.Path)
-	x.sym.declareFun(name, []Sort{SInt}, SInt)
-	return mk(SInt, name, p.Base)
+	return x.fieldAddr(p.Base, p.Root, p.Path)
+}
+
+// fieldAddr: address of a field as an injective function of (object, field): two field addresses are equal only
+// for the same object and the same field (the injectivity facts are global axioms of the unit).
+func (x *Exec) fieldAddr(base Term, root types.Type, path []int) Term {
+	key := "fieldid|" + typeKey(root) + "|" + pathStr(path)
+	id, ok := x.typeIDs[key]
+	if !ok {
+		id = len(x.typeIDs) + 1
+		x.typeIDs[key] = id
+	}
+	if _, ok := x.sym.decl["fieldaddr"]; !ok {
+		x.sym.declareFun("fieldaddr", []Sort{SInt, SInt}, SInt)
+		x.sym.declareFun("fa_base", []Sort{SInt}, SInt)
+		x.sym.declareFun("fa_field", []Sort{SInt}, SInt)
+		x.sym.defineRaw("fieldaddr!axiom", "(assert (forall ((b Int) (f Int)) (! (and (= (fa_base (fieldaddr b f)) b) (= (fa_field (fieldaddr b f)) f)) :pattern ((fieldaddr b f)))))")
+	}
+	return mk(SInt, "fieldaddr", base, intLit(int64(id)))
 }
 
 func pathStr(p []int) string {
